@@ -80,6 +80,20 @@ def run_state(lib, m, seed, nsteps):
   return d
 
 
+def guarded(ck, lib, fn, *args):
+  """Run an engine call of the dynamics pipeline; an mju_error that does not come from sensor code (e.g.
+  'FactorizeHessian: rank-deficient sparse Hessian' for singular joint arrangements) is counted as a discard."""
+  try:
+    fn(*args)
+    return True
+  except mj.MjError as e:
+    if 'ensor' in str(e):
+      raise
+    ck.discard('dynamics-mju_error:' + str(e).split(':')[0][:40])
+    lib.warnings()
+    return False
+
+
 def obj_body(w, objtype, oid):
   E = w.E
   m = w.m
@@ -430,7 +444,8 @@ def multiray_probe(ck, lib, n):
       return
     d = lib.make_data(m)
     mg.apply_state(lib, m, d, seed)
-    lib.mj_forward(m, d)
+    if not guarded(ck, lib, lib.mj_forward, m, d):
+      return
     w = so.World(lib, m, d)
     for i, s in enumerate(sens):
       r = so.expect(w, i, s)
@@ -655,12 +670,17 @@ def main(ck):
   ck.extra['nontrivial_by_type'] = dict(stats['nt'])
   ck.extra['cases_with_nefc>0'] = stats['nefc>0']
   ck.extra['sensors_evaluated'] = stats['sensors']
-  ck.extra['static_acc_exclusions'] = dict(stats['findings'])
-  ck.extra['static_acc_exclusions']['generator_candidates_removed'] = stats['gen_excluded']
-  ck.extra['rk4_delay_exclusions'] = stats.get('rk4_excluded', 0)
-  ck.extra['ekinetic_energyflag_exclusions'] = stats.get('ekin_excluded', 0)
-  ck.extra['capsulebox_cutoff_exclusions'] = stats.get('capbox_excluded', 0)
-
+  ck.extra['known_finding_exclusions_from_main_stream'] = {
+      'static-acc: acceleration-sensor attachment candidates on dof-less bodies removed by the generator':
+          stats['gen_excluded'],
+      'static-acc: such sensors reaching the main stream (0 by construction)':
+          stats['findings'].get('excluded-static-acc-in-main-stream', 0),
+      'rk4-delay: history sensors drawn without delay because integrator=RK4': stats.get('rk4_excluded', 0),
+      'ekinetic-stale: e_kinetic replaced because the energy flag is enabled': stats.get('ekin_excluded', 0),
+      'multiray-cull: camera rangefinders kept isolation-only in the main stream':
+          stats['findings'].get('excluded-camera-rangefinder-in-main-stream', 0),
+      'capsulebox-distmax: collision sensors with a capsule-box pair restricted to cutoff <= 1':
+          stats.get('capbox_excluded', 0)}
 
 LEVEL = 'exploration'
 TECHNIQUE = ('property-based testing (Hypothesis): generated models x generated sensor blocks x generated states, '
